@@ -215,9 +215,11 @@ impl<'a, T> DoubleEndedIterator for RowsMut<'a, T> {
             self.v = &mut [];
         } else {
             let tmp = mem::take(&mut self.v);
-            // adj < self.v.len(), so no check required
+            // `self.v` is empty while `tmp` holds the slice, so the length must come from `tmp`
+            let tmp_len = tmp.len();
+            // adj < tmp_len, so no check required
             unsafe {
-                self.v = tmp.get_unchecked_mut(..self.v.len() - adj);
+                self.v = tmp.get_unchecked_mut(..tmp_len - adj);
             }
         }
         self.next_back()
@@ -468,9 +470,11 @@ impl<'a, T> DoubleEndedIterator for ColMut<'a, T> {
             self.v = &mut [];
         } else {
             let tmp = mem::take(&mut self.v);
-            // adj <= self.v.len(), so no check required
+            // `self.v` is empty while `tmp` holds the slice, so the length must come from `tmp`
+            let tmp_len = tmp.len();
+            // adj < tmp_len, so no check required
             unsafe {
-                self.v = tmp.get_unchecked_mut(..self.v.len() - adj);
+                self.v = tmp.get_unchecked_mut(..tmp_len - adj);
             }
         }
         self.next_back()
